@@ -107,6 +107,14 @@ func c10Produce(c *runner.Ctx, w iceImpl) (b []byte, desc string, kind string, e
 			docs, _ = gen.JumboBatch(r, 1100+r.Intn(2200), fmt.Sprintf("j%d", c.Idx))
 			gen.AddExactTerms(r, docs, "exact", gen.ExactSpec(len(docs)))
 			mode = []uint32{1025, 1024, 100}[r.Intn(3)]
+		} else if c.Idx%150 == 4 { // big stored values: stored blocks above 1 MiB uncompressed (decoder window limits)
+			sch := gen.GenSchema(r)
+			for i := range sch.Fields {
+				sch.Fields[i].StoreP = 10
+			}
+			n := 130 + r.Intn(140)
+			docs = gen.GenBatch(r, sch, n, fmt.Sprintf("B%d", c.Idx), gen.DocOpts{BigStored: true})
+			mode = gen.Mode(r, n)
 		} else {
 			n := gen.BatchSize(r)
 			docs = gen.GenBatch(r, gen.GenSchema(r), n, fmt.Sprintf("b%d", c.Idx), gen.DocOpts{Repeat: r.Intn(2) == 0})
